@@ -38,7 +38,7 @@ CHECKS = {
         text="The lifetime guards (no future start, never unbounded/wrapped, NotAfter <= min(requested, 24h, auth+24h) "
              "for user certificates, 45d automation, 24h cloud-role) are checked by TLC on the model and evaluated by the "
              "TLC monitor on the validity window of every certificate the real issuing paths return for 25 duration "
-             "texts (negative, zero, sub-second, > 24h, +-2^63 ns, malformed) x 9 credential kinds/ages x all paths.",
+             "texts (negative, zero, sub-second, > 24h, +-2^63 ns, malformed) x 9 credential kinds/ages x all paths, sessions upgraded by a second factor hours after their login, and every row once more with the daemon's local time zone changing its offset within the day.",
         note="One second of slack per bound (epoch granularity); times relative to the request instant, clamped to "
              "+-2e9 s for TLC's 32-bit integers with a separate 'unbounded' flag for wrap-around.",
         ref="DESIGN.md 4 C03"),
@@ -162,7 +162,7 @@ CHECKS = {
              "handler's CIDR parsing yields.",
         ref="DESIGN.md 4 C11"),
     "C05": dict(
-        module="KMSession",
+        module="KMSession + KMFederated",
         technique="TLA+ session/2FA state machine: TLC exhaustive per mechanism family with symmetry (+ as-built negative "
                   "controls) ; TLC-simulated request sequences and the controls' counterexamples replayed on the real "
                   "handlers with fakes ; TLC trace monitor with named guards and ground-truth FactorGain",
